@@ -1,9 +1,20 @@
 #!/venv/bin/python
 """print the markdown table of seeded changes (seeded/*/meta.json) for DESIGN.md section 9.4"""
 import json, os, glob
+NOTES = {  # seeds the checks missed at first, and what was added to catch them
+    "C02-a1": "after configuration `dd-ext-fault` was added", "C02-a2": "after configuration `dd-remove-mid`",
+    "C06-a2": "after the `do+release` replay", "C08-a1": "after the relational oracle at decimal scales",
+    "C08-a2": "after the read order was varied", "C12-a1": "after `reqclose` and answer patterns were added to Idle.tla",
+    "C12-a2": "after answer patterns were added to Idle.tla", "C19-a1": "after script `redir-2bad`",
+    "C22-a1": "after delivery order B (altered gram ahead of its zeroth gram)", "C22-a2": "after the two-signer scenarios",
+    "C27-a2": "after `Load` (constructor bulk load) was added to Namer.tla", "C29-a1": "after segment `headx`",
+    "C29-a2": "after FilerReopen.tla (lives with reopen)", "C14-a1": "after ReqReuse.tla (request sequences over one Requester)",
+    "C11-a2": "patch no longer applies after the follow-up repair of ServerTls.close; the re-based demo passes on the patched "
+              "tree too (garbage collection closes the socket) - kept as own mutant, caught by the single-peer deep histories",
+}
 V = os.path.dirname(os.path.dirname(os.path.abspath(__file__)))
-print("| seed | property | change | needs | demo (clean / patched) | caught by |")
-print("|---|---|---|---|---|---|")
+print("| seed | change | needs | demo clean/patched | caught by |")
+print("|---|---|---|---|---|")
 for d in sorted(glob.glob(os.path.join(V, "seeded", "*"))):
     try:
         m = json.load(open(os.path.join(d, "meta.json")))
@@ -13,5 +24,9 @@ for d in sorted(glob.glob(os.path.join(V, "seeded", "*"))):
     def cut(x, n=150):
         x = str(x).replace("|", "/").replace("\n", " ")
         return x if len(x) <= n else x[:n - 3] + "..."
-    print("| %s | %s | %s | %s | %s / %s | %s |" % (os.path.basename(d), m.get("property", m.get("breaks", "?")), cut(m.get("summary", m.get("what", ""))),
-          cut(m.get("needs", "")), c.get("demo_clean_rc"), c.get("demo_patched_rc"), ", ".join(m.get("detected_by", [])) or "**missed**"))
+    n = os.path.basename(d)
+    by = ", ".join(m.get("detected_by", [])) or "not caught"
+    if n in NOTES:
+        by += " (%s)" % NOTES[n]
+    print("| %s | %s | %s | %s / %s | %s |" % (n, cut(m.get("summary", m.get("what", "")), 170), cut(m.get("needs", ""), 170),
+                                             c.get("demo_clean_rc"), c.get("demo_patched_rc"), by))
